@@ -185,6 +185,10 @@ pub enum Act {
     EqOther(usize),
     CmpSelfClone,
     CmpOther(usize),
+    /// `format!("{:?}", drain)` after running a script on `drain(range)`, then drop the drain
+    DrainDebug(Rs, Script),
+    /// `format!("{:?}", it)` after running a script on iter (0) / iter_mut (1) / into_iter (2)
+    IterDebug(usize, Script),
 }
 
 fn acc_from(i: usize) -> Option<Acc> {
@@ -254,6 +258,8 @@ impl Act {
             EqOther(_) => "eq_other",
             CmpSelfClone => "cmp_clone",
             CmpOther(_) => "cmp_other",
+            DrainDebug(..) => "drain_debug",
+            IterDebug(..) => "iter_debug",
         }
     }
     pub fn args(&self) -> Vec<usize> {
@@ -264,7 +270,8 @@ impl Act {
             | NthBack(i) | Index(i) | DebugFmt(i) | EqOther(i) | CmpOther(i) => vec![i],
             Swap(i, j) | CloneFrom(i, j) => vec![i, j],
             WriteVia(_, i) => vec![i],
-            Drain(r, s, _) | Range(r, s) | RangeMut(r, s) => vec![
+            IterDebug(k, s) => vec![k, s.bits as usize, s.len as usize],
+            Drain(r, s, _) | Range(r, s) | RangeMut(r, s) | DrainDebug(r, s) => vec![
                 r.sk as usize,
                 r.a,
                 r.ek as usize,
@@ -373,6 +380,17 @@ impl Act {
             "eq_other" => EqOther(a(0)?),
             "cmp_clone" => CmpSelfClone,
             "cmp_other" => CmpOther(a(0)?),
+            "drain_debug" => {
+                let (r, s) = rs()?;
+                DrainDebug(r, s)
+            }
+            "iter_debug" => IterDebug(
+                a(0)?,
+                Script {
+                    bits: a(1)? as u32,
+                    len: a(2)? as u8,
+                },
+            ),
             _ => {
                 let rest = name.strip_prefix("write_")?;
                 let idx = ACCS
@@ -410,6 +428,7 @@ impl Act {
                 | MakeContiguous
                 | WriteVia(..)
                 | CloneFrom(..)
+                | DrainDebug(..)
         )
     }
 }
